@@ -214,6 +214,15 @@ def _fft_kw(fn):
     return staticmethod(wrapper)
 
 
+def _im_zero(e):
+    e = Sym.lift(e)
+    im = e.im
+    try:
+        return bool(im == 0) if isinstance(im, (int, float, Fr)) else False
+    except Exception:
+        return False
+
+
 class FFT:
     fftshift = staticmethod(numpy.fft.fftshift)
     ifftshift = staticmethod(numpy.fft.ifftshift)
@@ -1408,6 +1417,19 @@ class NP:
 
     def iinfo(self, dtype):
         return numpy.iinfo(core._dt(dtype))
+
+    def isrealobj(self, x):
+        """a symbolic array stands for a real-dtype array iff no element carries an imaginary part (symbolic complex
+        arrays have symbolic imaginary parts); native arrays answer for themselves"""
+        if isinstance(x, Sym):
+            return bool(Sym.lift(x).im_is_zero()) if hasattr(x, "im_is_zero") else _im_zero(x)
+        a = numpy.asarray(x)
+        if a.dtype != object:
+            return bool(numpy.isrealobj(a))
+        return all(_im_zero(e) for e in a.flat)
+
+    def iscomplexobj(self, x):
+        return not self.isrealobj(x)
 
     def isclose(self, a, b, rtol=1e-05, atol=1e-08, equal_nan=False):
         """|a - b| <= atol + rtol |b| element-wise (symbolic elements give symbolic truth values)"""
